@@ -3,6 +3,7 @@ package sim
 import (
 	"encoding/json"
 	"fmt"
+	"strings"
 
 	"github.com/google/jsonschema-go/jsonschema"
 	"verif.local/simrt"
@@ -266,7 +267,7 @@ type c15step struct {
 }
 
 func (s c15step) String() string {
-	return fmt.Sprintf("%s(%d,%d,%d)", []string{"apply", "apply-twice", "delete", "set", "replace", "mutate-inserted", "switch", "validate", "mutate-drop-reapply"}[s.Kind], s.R, s.A, s.B)
+	return fmt.Sprintf("%s(%d,%d,%d)", []string{"apply", "apply-twice", "delete", "set", "replace", "mutate-inserted", "switch", "validate", "mutate-drop-reapply", "evolve-schema"}[s.Kind], s.R, s.A, s.B)
 }
 
 // pathsOf lists the object-valued positions of an instance (as key paths).
@@ -349,7 +350,7 @@ func driveC15(c *Ctx) {
 	nsteps := 4 + c.W(7)
 	steps := []c15step{{Kind: 0, R: 0}}
 	for len(steps) < nsteps {
-		k := []int{0, 0, 1, 1, 2, 3, 4, 5, 5, 6, 7, 8, 8}[c.W(13)]
+		k := []int{0, 0, 1, 1, 2, 3, 4, 5, 5, 6, 7, 8, 8, 9, 9}[c.W(15)]
 		steps = append(steps, c15step{Kind: k, R: c.W(nw), A: c.W(16), B: c.W(16)})
 	}
 	c.In("history %v", steps)
@@ -414,6 +415,8 @@ func driveC15(c *Ctx) {
 	for si, sch := range scheds {
 		sch.apply(c)
 		var rs []*jsonschema.Resolved
+		var ss []*jsonschema.Schema // the Schema values behind rs
+		var docs []map[string]any   // the model of each schema as it stands (schemas evolve, step kind 9)
 		for wi, w := range worlds {
 			var s jsonschema.Schema
 			var res *jsonschema.Resolved
@@ -434,6 +437,8 @@ func driveC15(c *Ctx) {
 				c.Probe("resolved-with-ValidateDefaults")
 			}
 			rs = append(rs, res)
+			ss = append(ss, &s)
+			docs = append(docs, clone(w.Doc).(map[string]any))
 		}
 		insts := []any{clone(inst0[0]), clone(inst0[1])}
 		cur := 0
@@ -456,8 +461,41 @@ func driveC15(c *Ctx) {
 				c.Probe("mutate-drop-reapply")
 				st = c15step{Kind: 0, R: lastR}
 			}
-			doc := worlds[st.R].Doc
+			doc := docs[st.R]
 			switch st.Kind {
+			case 9:
+				// The schema evolves: a copy (CloneSchemas) of the Schema value in use - or that value
+				// itself - is edited below one of its property subschemas (a default added or removed,
+				// "required" set or dropped) and resolved again; later applications use the new one.
+				tree := ss[st.R]
+				how := "in place"
+				if st.A%2 == 0 {
+					r := Op(func() { tree = tree.CloneSchemas() })
+					c.CheckOp("CloneSchemas", r)
+					if r.Panicked || tree == nil {
+						break
+					}
+					how = "on a CloneSchemas copy"
+				}
+				if !evolveSchema(tree, doc, st.A/2, st.B) {
+					break
+				}
+				var res *jsonschema.Resolved
+				var err error
+				r := Op(func() { res, err = tree.Resolve(nil) })
+				c.CheckOp("Resolve (evolved schema)", r)
+				if r.Panicked {
+					return
+				}
+				if err != nil {
+					c.Fail("C15/legitimate", "resolve-evolved", "schedule %d step %d: schema %d edited %s to %s does not resolve: %v", si, ti, st.R, how, JSON(doc), err)
+					return
+				}
+				ss[st.R], rs[st.R] = tree, res
+				c.Probe("schema-evolved-" + strings.ReplaceAll(how, " ", "-"))
+				if si == 0 {
+					c.Out("step %d schema %d edited %s: now %s", ti, st.R, how, JSON(doc))
+				}
 			case 0, 1:
 				lastR = st.R
 				before := clone(insts[cur])
@@ -475,7 +513,7 @@ func driveC15(c *Ctx) {
 				}
 				n, msg := defaultsCheck(before, insts[cur], doc, "")
 				if msg != "" {
-					c.Fail("C15/legitimate", classify(msg), "schedule %d step %d %s: schema %s, instance before %s, after %s: %s", si, ti, st, worlds[st.R].Text, JSON(before), JSON(insts[cur]), msg)
+					c.Fail("C15/legitimate", classify(msg), "schedule %d step %d %s: schema %s, instance before %s, after %s: %s", si, ti, st, JSON(doc), JSON(before), JSON(insts[cur]), msg)
 					return
 				}
 				inserted += n
@@ -493,7 +531,7 @@ func driveC15(c *Ctx) {
 					c.CheckOp("ApplyDefaults", r)
 					insts[cur] = holder
 					if typedJSONDeep(insts[cur]) != first {
-						c.Fail("C15/idempotence", "second-application", "schedule %d step %d: a second application of the same schema changed the instance from %s to %s (schema %s)", si, ti, first, typedJSONDeep(insts[cur]), worlds[st.R].Text)
+						c.Fail("C15/idempotence", "second-application", "schedule %d step %d: a second application of the same schema changed the instance from %s to %s (schema %s)", si, ti, first, typedJSONDeep(insts[cur]), JSON(doc))
 						return
 					}
 					c.Probe("idempotence-checked")
@@ -566,6 +604,65 @@ func driveC15(c *Ctx) {
 		}
 		c.Sample = map[string]any{"schemas": texts, "instances": inst0, "history": fmt.Sprint(steps), "defaults_inserted_over_all_schedules": inserted}
 	}
+}
+
+// evolveSchema applies one edit to the subschema number `which` (in a fixed walk through
+// "properties") of both the model document and the Schema tree, and reports whether it did.
+func evolveSchema(tree *jsonschema.Schema, doc map[string]any, which, edit int) bool {
+	type pair struct {
+		d map[string]any
+		n *jsonschema.Schema
+	}
+	var all []pair
+	var walk func(d map[string]any, n *jsonschema.Schema, depth int)
+	walk = func(d map[string]any, n *jsonschema.Schema, depth int) {
+		if n == nil {
+			return
+		}
+		if depth > 0 {
+			all = append(all, pair{d, n}) // the root's own default is not part of the worlds
+		}
+		props, _ := d["properties"].(map[string]any)
+		for _, k := range sortedKeys(props) {
+			sub, _ := props[k].(map[string]any)
+			if sub != nil && n.Properties != nil {
+				walk(sub, n.Properties[k], depth+1)
+			}
+		}
+	}
+	walk(doc, tree, 0)
+	if len(all) == 0 {
+		return false
+	}
+	p := all[which%len(all)]
+	props, _ := p.d["properties"].(map[string]any)
+	switch edit % 4 {
+	case 0:
+		if _, has := p.d["default"]; !has {
+			return false
+		}
+		delete(p.d, "default")
+		p.n.Default = nil
+	case 1:
+		v := clone(defValuePool[(which+edit/4)%len(defValuePool)])
+		p.d["default"] = v
+		p.n.Default = json.RawMessage(JSON(v))
+	case 2:
+		ks := sortedKeys(props)
+		if len(ks) == 0 {
+			return false
+		}
+		k := ks[edit/4%len(ks)]
+		p.d["required"] = []any{k}
+		p.n.Required = []string{k}
+	case 3:
+		if _, has := p.d["required"]; !has {
+			return false
+		}
+		delete(p.d, "required")
+		p.n.Required = nil
+	}
+	return true
 }
 
 // classify reduces a checker message to a stable class.
